@@ -50,6 +50,25 @@ Golden ==
     \o <<1, 0, 0, 0, 0, 0, 0, 0, 107>> \o <<0, 0, 0, 0, 0, 0, 0, 0>>  \* "k" -> ""
     \o <<0, 0, 0, 2, 0, 255>>                                         \* body frame
 
+(* length prefixes inside a well-framed header that promise more than any message holds:  *)
+(* 2^31 - 1, 2^31, 2^32, 2^63, 2^64 - 1 as the route's length, the number of headers, a    *)
+(* header name's and a header value's length - rejected (and never trusted for anything)   *)
+HugeLens == {<<255, 255, 255, 127, 0, 0, 0, 0>>, <<0, 0, 0, 128, 0, 0, 0, 0>>, <<0, 0, 0, 0, 1, 0, 0, 0>>,
+             <<0, 0, 0, 0, 0, 0, 0, 128>>, <<255, 255, 255, 255, 255, 255, 255, 255>>}
+AbsurdReqHeaders ==
+  {n \o <<47, 97>> : n \in HugeLens}                                             \* route length
+  \cup {Str(<<47, 97>>) \o n \o Str(<<107>>) \o Str(<<>>) : n \in HugeLens}       \* number of headers
+  \cup {Str(<<47, 97>>) \o LE(1, 8) \o n \o <<107>> \o Str(<<>>) : n \in HugeLens} \* a name's length
+  \cup {Str(<<47, 97>>) \o LE(1, 8) \o Str(<<107>>) \o n : n \in HugeLens}        \* a value's length
+AbsurdRespHeaders ==
+  {LE(200, 2) \o n \o Str(<<107>>) \o Str(<<>>) : n \in HugeLens}
+  \cup {LE(200, 2) \o LE(1, 8) \o n \o <<107>> \o Str(<<>>) : n \in HugeLens}
+  \cup {LE(200, 2) \o LE(1, 8) \o Str(<<107>>) \o n : n \in HugeLens}
+AbsurdReqs == {Preamble(1) \o Frame(h) \o Frame(<<0, 255>>) : h \in AbsurdReqHeaders}
+AbsurdResps == {Preamble(1) \o Frame(h) \o Frame(<<0, 255>>) : h \in AbsurdRespHeaders}
+AbsurdRejected == (\A b \in AbsurdReqs : ~DecReq(b).ok) /\ (\A b \in AbsurdResps : ~DecResp(b).ok)
+
+ASSUME AbsurdRejected
 ASSUME RoundTripReq
 ASSUME RoundTripResp
 ASSUME PrefixRejectedReq
@@ -66,6 +85,8 @@ BadRows ==
   \cup {[kind |-> "bad_resp", bytes |-> EncResp(1, s, SomeResp.entries, SomeResp.body)] : s \in BadStatus}
   \cup {[kind |-> "bad_req", bytes |-> [ReqBytes(SomeReq) EXCEPT ![i] = 120]] : i \in 1..5}
   \cup {[kind |-> "bad_req", bytes |-> [ReqBytes(SomeReq) EXCEPT ![8] = 1]]}
+  \cup {[kind |-> "bad_req", bytes |-> b] : b \in AbsurdReqs}
+  \cup {[kind |-> "bad_resp", bytes |-> b] : b \in AbsurdResps}
 ASSUME PrintT(<<"TABLE", "wire_req", ToJson(ReqRows)>>)
 ASSUME PrintT(<<"TABLE", "wire_resp", ToJson(RespRows)>>)
 ASSUME PrintT(<<"TABLE", "wire_bad", ToJson(BadRows)>>)
